@@ -457,6 +457,61 @@ Proof.
     inversion H; subst. cbn [map fst snd]. rewrite Ef. cbn [ok_or]. rewrite <- (IH _ eq_refl). reflexivity.
 Qed.
 
+(* fix D15/D20: bodies are optimised entry by entry *)
+Lemma mapM_ok_or (f : expr -> out expr) : forall l l', mapM f l = Ok l' ->
+  l' = map (fun x => ok_or (f x) x) l.
+Proof.
+  induction l as [|x l IH]; intros l' H.
+  - inversion H; subst. reflexivity.
+  - rewrite mapM_cons in H. destruct (f x) as [y| |] eqn:Ef; try discriminate H.
+    destruct (mapM f l) as [tl'| |] eqn:Et; try discriminate H.
+    inversion H; subst. cbn [map]. rewrite Ef. cbn [ok_or]. rewrite <- (IH _ eq_refl). reflexivity.
+Qed.
+
+Lemma entries_ok_or (f : expr -> out expr) b b' : entries f b = Ok b' ->
+  b' = on_entries (fun x => ok_or (f x) x) b.
+Proof.
+  intros H. destruct b as [s l| | | | | | | | | | | | |]; cbn [entries on_entries] in *;
+    try (rewrite H; reflexivity).
+  apply C03.bind_ok_inv in H. destruct H as (l' & Hl & H). inversion H; subst.
+  rewrite (mapM_ok_or f l l' Hl). reflexivity.
+Qed.
+
+Lemma map_ids_entries_ok_or (f : expr -> out expr) : forall ids ids',
+  map_ids (entries f) ids = Ok ids' ->
+  ids' = map (fun kv => (fst kv, on_entries (fun x => ok_or (f x) x) (snd kv))) ids.
+Proof.
+  unfold map_ids. induction ids as [|[k e] ids IH]; intros ids' H.
+  - inversion H; subst. reflexivity.
+  - rewrite mapM_cons in H. cbn [fst snd] in H.
+    destruct (entries f e) as [e'| |] eqn:Ef; cbn [bind] in H; try discriminate H.
+    destruct (mapM _ ids) as [tl'| |] eqn:Et; try discriminate H.
+    inversion H; subst. cbn [map fst snd]. rewrite (entries_ok_or f e e' Ef).
+    rewrite <- (IH _ eq_refl). reflexivity.
+Qed.
+
+Lemma on_entries_id b : on_entries (fun e => e) b = b.
+Proof. destruct b; cbn [on_entries]; try reflexivity. rewrite map_id. reflexivity. Qed.
+
+Lemma rewrite_on_entries o (g : expr -> expr) b :
+  rewrite o (on_entries g b) = on_entries (fun e => rewrite o (g e)) b.
+Proof.
+  destruct b; cbn [on_entries]; try reflexivity. cbn [rewrite]. rewrite map_map. reflexivity.
+Qed.
+
+Lemma rewrite_as_on_entries o b : rewrite o b = on_entries (rewrite o) b.
+Proof. destruct b; reflexivity. Qed.
+
+Lemma entries_total (f : expr -> out expr) b :
+  (forall x, exists y, f x = Ok y) -> exists b', entries f b = Ok b'.
+Proof.
+  intros Hf.
+  destruct (C01.entries_rel f (fun _ => True) (fun _ _ => True) b) as [b' [Hb' _]].
+  - intros x _. destruct (Hf x) as [y Hy]. exists y. split; [exact Hy|exact I].
+  - destruct b; auto.
+  - exists b'. exact Hb'.
+Qed.
+
 Lemma no_matrix_stage_pre o ord sw dt s3 :
   no_matrix_stage o ord sw dt = Ok s3 -> pre_matrix o ord sw dt = (d_expr s3, d_ids s3).
 Proof.
@@ -474,11 +529,15 @@ Proof.
   destruct (sw_shake sw).
   - apply C03.bind_ok_inv in H2. destruct H2 as (e & He & H2).
     apply C03.bind_ok_inv in H2. destruct H2 as (ids & Hi & H2). inversion H2; subst; clear H2.
-    apply map_ids_ok_or in Hi. cbn [d_expr d_ids]. rewrite He. cbn [ok_or].
-    destruct (sw_rewrite sw); cbn [d_expr d_ids]; subst ids; rewrite ?map_map; reflexivity.
+    apply map_ids_entries_ok_or in Hi. cbn [d_expr d_ids]. rewrite He. cbn [ok_or].
+    destruct (sw_rewrite sw); cbn [d_expr d_ids]; subst ids; rewrite ?map_map; [|reflexivity].
+    f_equal. apply map_ext. intros [k b]. cbn [fst snd]. rewrite rewrite_on_entries. reflexivity.
   - inversion H2; subst.
-    destruct (sw_rewrite sw); cbn [d_expr d_ids]; [reflexivity|].
-    f_equal. rewrite <- (map_id (d_ids s2)) at 2. apply map_ext. intros [k e]; reflexivity.
+    destruct (sw_rewrite sw); cbn [d_expr d_ids].
+    + f_equal. apply map_ext. intros [k e]. cbn [fst snd].
+      rewrite (rewrite_as_on_entries o e). reflexivity.
+    + f_equal. rewrite <- (map_id (d_ids s2)) at 2. apply map_ext. intros [k e]. cbn [fst snd].
+      rewrite on_entries_id. reflexivity.
 Qed.
 
 Lemma optimise_total_stage o ord sw dt :
@@ -492,12 +551,14 @@ Proof.
   unfold known_d21 in Hk. rewrite Em, (no_matrix_stage_pre _ _ _ _ _ Hs) in Hk. cbn [andb] in Hk.
   unfold any_tree in Hk. cbn [fst snd] in Hk. apply orb_false_iff in Hk. destruct Hk as [K1 K2].
   destruct (matrix_ok ord Hord _ _ K1 (shake_fuel (d_expr s3))) as [e' ->]. cbn [bind].
-  assert (Hids : exists ids', map_ids (fun x => matrix ord (shake_fuel x) x) (d_ids s3) = Ok ids').
+  assert (Hids : exists ids', map_ids (entries (fun x => matrix ord (shake_fuel x) x)) (d_ids s3) = Ok ids').
   { unfold map_ids.
-    destruct (mapM_good (fun kv : str * expr => do e <- matrix ord (shake_fuel (snd kv)) (snd kv); Ok (fst kv, e))
+    destruct (mapM_good (fun kv : str * expr => do e <- entries (fun x => matrix ord (shake_fuel x) x) (snd kv); Ok (fst kv, e))
                         (fun _ => True) (d_ids s3)) as (ids' & Hm & _).
-    - intros kv Hkv. pose proof (C01.existsb_false_In _ _ _ K2 Hkv) as Hb. cbn beta in Hb.
-      destruct (matrix_ok ord Hord _ _ Hb (shake_fuel (snd kv))) as [e0 ->]. cbn [bind]. eauto.
+    - intros kv Hkv.
+      destruct (entries_total (fun x => matrix ord (shake_fuel x) x) (snd kv)) as [e0 ->].
+      { intros x. apply (matrix_ok_all ord Hord). }
+      cbn [bind]. eauto.
     - eauto. }
   destruct Hids as [ids' ->]. cbn [bind]. eexists; reflexivity.
 Qed.
@@ -511,12 +572,14 @@ Proof.
   destruct (no_matrix_stage_good o ord sw dt Hg) as (s3 & Hs & _). rewrite Hs. cbn [bind].
   destruct (sw_matrix sw) eqn:Em; [|eexists; reflexivity].
   destruct (matrix_ok_all ord Hord (d_expr s3) (shake_fuel (d_expr s3))) as [e' ->]. cbn [bind].
-  assert (Hids : exists ids', map_ids (fun x => matrix ord (shake_fuel x) x) (d_ids s3) = Ok ids').
+  assert (Hids : exists ids', map_ids (entries (fun x => matrix ord (shake_fuel x) x)) (d_ids s3) = Ok ids').
   { unfold map_ids.
-    destruct (mapM_good (fun kv : str * expr => do e <- matrix ord (shake_fuel (snd kv)) (snd kv); Ok (fst kv, e))
+    destruct (mapM_good (fun kv : str * expr => do e <- entries (fun x => matrix ord (shake_fuel x) x) (snd kv); Ok (fst kv, e))
                         (fun _ => True) (d_ids s3)) as (ids' & Hm & _).
     - intros kv Hkv.
-      destruct (matrix_ok_all ord Hord (snd kv) (shake_fuel (snd kv))) as [e0 ->]. cbn [bind]. eauto.
+      destruct (entries_total (fun x => matrix ord (shake_fuel x) x) (snd kv)) as [e0 ->].
+      { intros x. apply (matrix_ok_all ord Hord). }
+      cbn [bind]. eauto.
     - eauto. }
   destruct Hids as [ids' ->]. cbn [bind]. eexists; reflexivity.
 Qed.
@@ -558,7 +621,7 @@ Definition refuted_rule : yaml :=
         (YStr key_tp, YSeq []); (YStr key_tn, YSeq [])].
 Definition refuted_ord : hord := fun ks => flat_map (fun _ => ks) (repeat tt (S BIG)).
 Definition refuted_sw : switches :=
-  {| sw_coalesce := false; sw_shake := false; sw_rewrite := false; sw_matrix := true |}.
+  {| sw_coalesce := true; sw_shake := false; sw_rewrite := false; sw_matrix := true |}.
 Definition refuted_loaded : rule :=
   {| r_optimised := false;
      r_det := {| d_expr := EIdent [65%N];
@@ -610,8 +673,10 @@ Proof.
     unfold matrix_fires. reflexivity.
   - unfold optimise, refuted_loaded. cbn [r_optimised r_det].
     rewrite optimise_detection_stage. unfold no_matrix_stage, refuted_sw.
-    cbn [sw_matrix sw_coalesce sw_shake sw_rewrite bind d_expr d_ids matrix].
-    unfold map_ids. rewrite mapM_cons. cbn [snd fst]. rewrite matrix_or_eq.
+    cbn [sw_matrix sw_coalesce sw_shake sw_rewrite d_expr d_ids].
+    change (coalesce _ (EIdent [65%N])) with
+      (Ok (EGroup BOr [ESearch (SExact [120%N]) [102%N] false; ESearch (SExact [121%N]) [102%N] false])).
+    cbn [bind d_expr d_ids]. rewrite matrix_or_eq.
     change (mapM (fun x => matrix refuted_ord _ x) _) with
       (Ok [ESearch (SExact [120%N]) [102%N] false; ESearch (SExact [121%N]) [102%N] false]).
     cbn [bind]. change (matrix_table _) with true. cbv iota zeta.
@@ -1302,6 +1367,22 @@ Proof.
     + constructor; [exact Ef | exact I2].
 Qed.
 
+(* fix D15/D20: matrix runs on every entry of a body *)
+Lemma entries_matrix_gm ord b b' neg :
+  (forall ks, (length (ord ks) <= length ks)%nat) ->
+  gb b = true -> exists_sub (d18_here ord) neg b = false ->
+  entries (fun x => matrix ord (shake_fuel x) x) b = Ok b' -> gm nokey b' = true.
+Proof.
+  intros Hord Hg H18 H. apply C01.entries_inv in H.
+  destruct b as [s l| | | | | | | | | | | | |];
+    try exact (matrix_gm0 ord Hord nokey _ neg Hg H18 _ _ H).
+  destruct H as [l' [-> HF]]. unfold gb in Hg. cbn [gk] in Hg. apply andb_prop in Hg.
+  destruct Hg as [Hs Hl]. cbn [gm]. rewrite Hs. cbn [andb].
+  eapply C01.Forall2_forallb; [exact HF|]. intros x y Hx Hxy. cbn beta in Hxy.
+  exact (matrix_gm0 ord Hord nokey x neg (C01.forallb_In _ _ _ Hl Hx)
+           (C01.exists_sub_member _ _ _ _ _ H18 Hx) _ _ Hxy).
+Qed.
+
 Lemma matches_of_solve o r (d : doc) :
   (exists x, solve_rule3 o (r_det r) (pure_doc d) = Ok x) -> exists b, matches o r d = Ok b.
 Proof. intros [x Hx]. unfold matches. rewrite Hx. cbn [bind]. eexists; reflexivity. Qed.
@@ -1341,7 +1422,7 @@ Proof.
     induction HF2 as [|kv kv' l l' Hkv _ IH]; constructor.
     + inversion Gi; subst. cbn [existsb] in A2, B2.
       apply orb_false_iff in A2. apply orb_false_iff in B2.
-      exact (matrix_gm ord Hord nokey _ _ H1 (proj1 A2) (proj1 B2) _ _ Hkv).
+      exact (entries_matrix_gm ord _ _ _ Hord H1 (proj1 A2) Hkv).
     + inversion Gi; subst. cbn [existsb] in A2, B2.
       apply orb_false_iff in A2. apply orb_false_iff in B2.
       apply IH; [exact (proj2 A2) | exact (proj2 B2) | assumption].
